@@ -56,4 +56,43 @@ PROPS = {
             "util::limit_size returns limit_prefix (assumed in Verus)",
         ],
     },
+    "C19": {
+        "title": "MemStorage honours the Storage contract",
+        "modules": ["top", "prelude", "pb", "log_unstable", "storage_trait", "raft_log", "memstorage"],
+        "body": ["storage_trait", "util", "memstorage"],
+        "modes": ["P", "S"],
+        "claim": "FULL for the single-threaded semantics (the RwLock is modelled as the protected value)",
+        "decided": [
+            "MemStorageCore::{append, compact, apply_snapshot, commit_to, set_hardstate, set_conf_state, snapshot, first_index, last_index, "
+            "has_entry_at, commit_to_and_set_conf_states} transform / answer the model (snapshot point + contiguous entries) exactly",
+            "impl Storage for MemStorage: first_index/last_index/term/entries/snapshot/initial_state answer the model, with Compacted below "
+            "first, Unavailable above last, the snapshot term at the snapshot index, entries = limit_prefix of the range (>= 1 entry for a "
+            "non-empty range), snapshot index >= request and, at the commit index, that index's term and the stored conf state",
+            "the impl's postconditions are checked against the Storage TRAIT contract that RaftLog (C14) is verified against",
+        ],
+        "undecided": ["concurrent use of the RwLock (no concurrency claim is made)"],
+        "bounded": ["util::limit_size: see C14"],
+        "assumptions": [
+            "R16: Arc<RwLock<MemStorageCore>> modelled as the protected value; rl()/wl() guards dereference to it",
+            "Vec::drain(..n)/drain(n..) with the iterator dropped = remove prefix/suffix (R9); <[T]>::to_vec copies (R9)",
+            "indexes < 2^62, lengths < 2^32; a snapshot at index 0 has term 0",
+        ],
+    },
+    "C20": {
+        "title": "No panic or internal-check failure under contract-abiding use",
+        "modules": ["top", "prelude", "pb", "inflights", "log_unstable", "storage_trait", "raft_log", "memstorage"],
+        "body": ["inflights", "log_unstable", "storage_trait", "config", "util", "raft_log", "memstorage"],
+        "modes": ["P"],
+        "claim": "PARTIAL",
+        "decided": [
+            "for every function under contract (mode P: fatal!/panic!/assert!/unwrap/index/overflow sites are proof obligations) the panic "
+            "sites are unreachable under the function's stated precondition, and every call site inside a verified function establishes "
+            "its callee's precondition",
+        ],
+        "undecided": [
+            "that the stated preconditions hold in every reachable cluster state (needs the global invariant)",
+            "functions not under contract (listed per module in DESIGN.md)",
+        ],
+        "assumptions": ["see C14, C18, C19"],
+    },
 }
